@@ -53,6 +53,11 @@ def fixed_cases(tier):
         out.append({"spec": spec, "base": S.simple_config([]), "mods": list(range(len(VARIANTS))), "seed": 0})
     for spec in C.run_count_specs([16, 17, 64, 65, 128, 129, 255, 256, 257]):
         out.append({"spec": spec, "base": S.simple_config([]), "mods": [1, 6], "seed": 0})      # table, table_range
+    # name-table matrix (total name bytes on / next to 2^8 and 2^16) and run-length matrix, match and table
+    for spec in C.name_table_specs():
+        out.append({"spec": spec, "base": S.simple_config([]), "mods": [0, 1], "seed": 2})
+    for spec in C.run_length_specs({(64, 64), (65, 64), (1, 64), (128, 128), (256, 63), (257, 65)}):
+        out.append({"spec": spec, "base": S.simple_config([]), "mods": [1, 6], "seed": 3})
     return out
 
 
